@@ -19,7 +19,9 @@ MANIFEST = dict(
           "real scheduling of the five stages against writers (sampled), the OS page cache"),
     technique="Lean 4 proof over a backup stage-machine model + scheduled differential runs + consistent-cut oracle on concurrent runs")
 MODULE = "IwModel.Props.C08"
-THEOREMS = []
+THEOREMS = ["IwModel.C08.main_stable", "IwModel.C08.live_unaffected", "IwModel.C08.mem_is_writes",
+            "IwModel.C08.image_recovers_to_final_savepoint_partial", "IwModel.C08.image_is_prefix_of_history_partial",
+            "IwModel.C08.growth_in_main_copy_crashes", "IwModel.C08.second_backup_refused"]
 
 
 # ------------------------------------------------------------------ (a) scheduled runs: implementation vs model
@@ -130,10 +132,11 @@ def run_schedule(ctx, h, drv, name, lines):
         w = sl.split()
         if sl == "obs":
             m = dict(p.split("=", 1) for p in o.split() if "=" in p)
-            fs = int(m.get("fsize", 0))
+            fs = int(m.get("nres", 0))
             if fsize is not None and fs > fsize and pending_grow_at is not None:
-                mlines.insert(pending_grow_at, "grow")
-                expect.insert(pending_grow_at, ("ok", "grow"))
+                for _ in range(fs - fsize):      # one forced checkpoint per growth step inside the operation
+                    mlines.insert(pending_grow_at, "grow")
+                    expect.insert(pending_grow_at, ("ok", "grow"))
             fsize = fs
             pending_grow_at = None
             mlines.append("obs")
